@@ -8,7 +8,24 @@ def P(i): return mk("param", i)
 def HI(t): return mk("field", t, 0)
 def LO(t): return mk("field", t, 1)
 
-def tree_of(facts, body, level="prim", keep=(), inline_extra=(), args=None, max_nodes=40000, inline_private=False):
+_shape_cache = {}
+
+def primitive_idents(facts):
+    """idents of the crate's Fast2Sum and three-term renormalisation, identified by conformance"""
+    k = id(facts)
+    if k not in _shape_cache:
+        from . import rules_arith, refs
+        _shape_cache[k] = tuple(b.ident() for fn, n in ((refs.FTS, 2), (refs.R3, 3)) for b in rules_arith.find_by_shape(facts, n, fn))
+    return _shape_cache[k]
+
+def tree_of(facts, body, level="prim", keep=(), inline_extra=(), args=None, max_nodes=40000, inline_private=None):
+    """op level: public items (operators, inherent methods) stay opaque; private helpers are inlined so
+    that extracting or inlining one does not change the tree; the renormalisation primitives keep
+    their (conformance-identified) names."""
+    if inline_private is None:
+        inline_private = (level == "op")
+    if level == "op" and inline_private:
+        keep = tuple(keep) + primitive_idents(facts)
     pol = vg.Policy(facts, level, keep=keep, inline_extra=inline_extra, inline_private=inline_private)
     ex = vg.Exec(facts, pol, max_nodes=max_nodes)
     return ex.run_body(body, args)
